@@ -25,7 +25,7 @@ ASSUME = ["reference-ellipsoid constants (a, e) and Earth spin rate are shared w
 SHARDS = {"quick": 4, "thorough": 16}
 BUDGET_S = {"quick": 90, "thorough": 1200}
 DECIDING = ["eci_ecef_roundtrip", "rigid", "lla_roundtrip", "lla_vs_ellipsoid", "sez_roundtrip", "sez_basis", "razel_radec",
-            "rsw_ntw", "rotation_continuity", "leap_second_jump", "rot_identities", "skew", "day_of_year"]
+            "rsw_ntw", "rotation_continuity", "rotation_axis", "leap_second_jump", "rot_identities", "skew", "day_of_year"]
 
 MANIFEST = {
     "technique": "runtime monitoring: inverse / rigidity / definition relations evaluated on the real conversion functions over boundary-biased dates and states; Earth-rotation continuity monitor across calendar boundaries and leap seconds",
@@ -240,15 +240,24 @@ def chk_continuity(ctx, t, delta_s, label):
     """Earth-rotation angle between t and t+delta equals w*delta (elapsed SI seconds)."""
     t2 = t + timedelta(seconds=delta_s)
     w = _w("continuity", t=t, delta=delta_s, label=label)
-    ang = g.rotation_angle_about_z(_rot(t), _rot(t2))
+    Ra, Rb = _rot(t), _rot(t2)
+    ang = g.rotation_angle_about_z(Ra, Rb)
     leap = sum(1 for L in LEAPS if t < L <= t2)
     expect = g.OMEGA * 1.00273781191135448 / 1.0027378119113546 * (delta_s + leap)
     dev = g.wrap_pm_pi(ang - expect)
+    # Earth-orientation parameters are looked up per UTC day (no interpolation): an interval holding a UTC midnight
+    # legitimately sees UT1-UTC and the pole step (<= 2.5 ms ~ 2e-7 rad); anywhere else the rotation is smooth
+    # (calibrated: <= 1.3e-12 rad about z for spans up to an hour, off-axis part <= 1.1e-7 * sin(angle)).
+    midnight = t.date() != t2.date()
+    D = Rb @ Ra.T
+    off = math.hypot(0.5 * (D[2, 1] - D[1, 2]), 0.5 * (D[0, 2] - D[2, 0]))
     if leap:
         ctx.check(abs(dev) <= 1e-6, "leap-second-jump", f"across the leap second at {t2.isoformat()} the rotation advanced {ang:.6e} rad, expected {expect:.6e}", w, mon="leap_second_jump")
     else:
-        ctx.check(abs(dev) <= 1e-6 + 3e-8 * delta_s, "rotation-continuity",
+        ctx.check(abs(dev) <= (1e-6 if midnight else 1e-10), "rotation-continuity" if midnight else "rotation-continuity-within-day",
                   f"Earth rotation between {t.isoformat()} and +{delta_s}s [{label}] is {ang:.9e} rad, expected {expect:.9e} (dev {dev:.2e})", w, mon="rotation_continuity")
+        ctx.check(off <= (1e-6 if midnight else 0.0) + 1e-10 + 1e-6 * abs(math.sin(expect)), "rotation-axis-jump",
+                  f"relative Earth-fixed rotation between {t.isoformat()} and +{delta_s}s [{label}] has an off-axis part {off:.3e} (axis not the pole)", w, mon="rotation_axis")
     ctx.add_to_set("boundaries", label)
 
 
@@ -362,6 +371,19 @@ def run(ctx):
             before = rng.choice([0.0005, 0.5, 1, 30]) if delta != 0.001 else 0.0005
             chk_continuity(ctx, t - timedelta(seconds=before), delta, kind)
         ctx.case(("b", t.isoformat(), kind), sample=None)
+    # anywhere inside a day: sub-second pairs sharing one UTC second, spans up to an hour, and the last 80 s of a UTC day
+    # (where terrestrial time has already rolled over to the next day)
+    for _ in range(ctx.scale(600, 60_000)):
+        t = _rand_date(rng, whole=False)
+        chk_continuity(ctx, t.replace(microsecond=rng.randrange(0, 400_000)), rng.choice([0.001, 0.25, 0.5]), "same-second")
+        d = rng.choice([1, 7, 60, 600, 3600])
+        if (t + timedelta(seconds=d)).date() == t.date():
+            chk_continuity(ctx, t, d, "within-day")
+        eod = datetime(t.year, t.month, t.day) + timedelta(days=1)
+        chk_continuity(ctx, eod - timedelta(seconds=80), 79.5, "terrestrial-time-rollover")
+        k = rng.randrange(1, 80)
+        chk_continuity(ctx, eod - timedelta(seconds=k), 0.999, "terrestrial-time-rollover")
+        ctx.case(("w", t.isoformat()), sample=None)
     # thorough: every day boundary in the table, each shard takes a slice
     if not ctx.quick:
         day = D0 + timedelta(days=2 + ctx.shard)
